@@ -173,3 +173,207 @@ Example C13_example_predict :
   predict_one y 2 [3; 4; 5] = 1%Z /\ predict_one y 2 [3; 4] = 0%Z /\
   predict_one y 2 [7] = (-1)%Z /\ predict_one y 2 [] = (-1)%Z /\ predict_one y 2 [7; 7; 3] = (-1)%Z.
 Proof. vm_compute. repeat split. Qed.
+
+(* ---------------- rounding: binary64 DBSCAN makes the same decisions as exact arithmetic ----------------
+   Everything above is about an abstract neighbourhood function.  The theorems below are an END-TO-END
+   floating-point statement for the whole algorithm with the Euclidean metric and the linear-scan backend
+   (SC.C13.ProofsFloat; rounding bounds from SC.Base.FloatError and SC.C17.ProofsFloat through Flocq's
+   primitive-float bridge; extra assumptions of the rounding theorems: the FloatAxioms / Uint63
+   specification axioms that give Coq's primitive floats their meaning, and the axioms of the Reals).
+   `euclid O a b` = sqrt of the running sum of (a_k - b_k)^2, written once for every instance `Ops T`;
+   `fit_euclid O data eps minpts` = `fit` on the linear scan with the test `euclid O row_i row_j <= eps`;
+   at O = FOps (binary64) this is the computation the correspondence group fit_euclid executes against
+   the Rust code; at O = ROps it is exact real arithmetic.  FR x = the real value of a float,
+   u64 = 2^-53. *)
+From Coq Require Import Reals Floats.
+From SC Require Import Base.FloatUtil Base.Num Base.FloatError C13.ProofsFloat C13.ProofsFloatEx.
+From SC Require C17.Model.
+From SC Require C17.ProofsFloat.
+
+(* STRUCTURE (axiom-free): fit reads the neighbourhood function only at the indices below n ... *)
+Theorem C13_fit_neighbour_lists_ext : forall (nb1 nb2 : nat -> list nat) (minpts n : nat),
+  (forall i, i < n -> nb1 i = nb2 i) ->
+  (forall i j, i < n -> In j (nb1 i) -> j < n) ->
+  fit nb1 minpts n = fit nb2 minpts n.
+Proof. exact fit_ext. Qed.
+
+(* ... so DBSCAN depends on the data ONLY through the predicate `dist i j <= eps`: two instantiations
+   (any two scalar types with their comparison, any two distance functions, any two eps) whose tests
+   agree on all pairs i, j < n return the same labels and the same number of clusters *)
+Theorem C13_fit_depends_only_on_neighbourhoods :
+  forall (T1 T2 : Type) (O1 : Ops T1) (O2 : Ops T2)
+         (d1 : nat -> nat -> T1) (d2 : nat -> nat -> T2) (e1 : T1) (e2 : T2) (minpts n : nat),
+  (forall i j, i < n -> j < n -> oleb O1 (d1 i j) e1 = oleb O2 (d2 i j) e2) ->
+  fit (linear_radius (fun i j => oleb O1 (d1 i j) e1) n) minpts n =
+  fit (linear_radius (fun i j => oleb O2 (d2 i j) e2) n) minpts n.
+Proof. exact @fit_depends_only_on_neighbourhoods. Qed.
+
+(* the model's Euclidean distance is, for every instance, sqrt of the same left fold as C17's
+   Euclidian::squared_distance model, and at binary64 it is the term the correspondence executes *)
+Theorem C13_euclid_same_fold : forall (T : Type) (O : Ops T) (a b : list T),
+  euclid O a b = osqrt O (C17.Model.sq_dist_loop O a b).
+Proof. exact @euclid_same_fold. Qed.
+
+(* what an agreeing correspondence case of group fit_euclid means: the binary64 instance of fit_euclid
+   on the literal data returns exactly the labels and num_classes of the implementation *)
+Theorem C13_corr_fit_euclid_sound : forall minpts data eps exp_y exp_c,
+  corr_fit_euclid minpts data eps exp_y exp_c = true ->
+  fit_euclid FOps data eps (N.to_nat minpts) = Some (exp_y, exp_c).
+Proof. exact corr_fit_euclid_sound. Qed.
+
+(* one computed distance: p + 3 roundings, relative to the exact distance *)
+Theorem C13_euclid_float_error : forall x y : list PrimFloat.float,
+  length x = length y -> PrimFloat.is_finite (euclid FOps x y) = true ->
+  C17.ProofsFloat.diff_normal_b x y = true ->
+  (0 <= euclid ROps (map FR x) (map FR y))%R /\
+  (Rabs (FR (euclid FOps x y) - euclid ROps (map FR x) (map FR y)) <=
+   ((1 + u64) ^ (length x + 3) - 1) * euclid ROps (map FR x) (map FR y))%R.
+Proof. exact euclid_float_error. Qed.
+
+(* DBSCAN::fit, binary64 against exact arithmetic: float rows of equal length p, a finite float eps,
+   every computed pairwise distance finite (nothing overflowed), no underflow in the squares (decidable
+   check diff_normal_b), and NO EXACT PAIRWISE DISTANCE WITHIN THE PROVED ROUNDING ERROR OF eps:
+   ((1+u64)^(p+3) - 1) * D_ij < |D_ij - FR eps|.  Then the binary64 run returns exactly the labels and
+   the number of clusters that exact real arithmetic returns on the real values of the same inputs *)
+Theorem C13_fit_float_robust :
+  forall (data : list (list PrimFloat.float)) (eps : PrimFloat.float) (minpts p : nat),
+  let n := length data in
+  (forall i, i < n -> length (nth i data []) = p) ->
+  PrimFloat.is_finite eps = true ->
+  (forall i j, i < n -> j < n ->
+     PrimFloat.is_finite (euclid FOps (nth i data []) (nth j data [])) = true /\
+     C17.ProofsFloat.diff_normal_b (nth i data []) (nth j data []) = true) ->
+  (forall i j, i < n -> j < n ->
+     let D := euclid ROps (map FR (nth i data [])) (map FR (nth j data [])) in
+     (((1 + u64) ^ (p + 3) - 1) * D < Rabs (D - FR eps))%R) ->
+  fit_euclid FOps data eps minpts = fit_euclid ROps (map (map FR) data) (FR eps) minpts.
+Proof. exact fit_float_robust. Qed.
+
+(* consequently the labels the binary64 computation returns satisfy the definition of density-based
+   clusters for the EXACT neighbourhoods {j | D_ij <= FR eps}: the run equals `fit` on them, and they
+   satisfy the hypotheses of C13_dbscan_correct *)
+Theorem C13_fit_float_exact_neighbourhoods :
+  forall (data : list (list PrimFloat.float)) (eps : PrimFloat.float) (minpts p : nat),
+  let n := length data in
+  let D := fun i j => euclid ROps (map FR (nth i data [])) (map FR (nth j data [])) in
+  let nbR := linear_radius (fun i j => Rleb (D i j) (FR eps)) n in
+  (forall i, i < n -> length (nth i data []) = p) ->
+  PrimFloat.is_finite eps = true ->
+  (forall i j, i < n -> j < n ->
+     PrimFloat.is_finite (euclid FOps (nth i data []) (nth j data [])) = true /\
+     C17.ProofsFloat.diff_normal_b (nth i data []) (nth j data []) = true) ->
+  (forall i j, i < n -> j < n -> (((1 + u64) ^ (p + 3) - 1) * D i j < Rabs (D i j - FR eps))%R) ->
+  fit_euclid FOps data eps minpts = fit nbR minpts n /\
+  nb_in_range nbR n /\ nb_symmetric nbR n /\
+  (forall i j, In j (nbR i) <-> j < n /\ (D i j <= FR eps)%R).
+Proof. exact fit_float_exact_neighbourhoods. Qed.
+
+(* DBSCAN::predict, one query row q against the training rows: under the same margin for the pairs
+   (q, row_j) the binary64 linear scan returns the exact neighbour list, hence the same label *)
+Theorem C13_predict_float_robust :
+  forall (y : list Z) (c : nat) (data : list (list PrimFloat.float)) (q : list PrimFloat.float)
+         (eps : PrimFloat.float),
+  let n := length data in
+  let p := length q in
+  PrimFloat.is_finite eps = true ->
+  (forall j, j < n -> length (nth j data []) = p /\
+     PrimFloat.is_finite (euclid FOps q (nth j data [])) = true /\
+     C17.ProofsFloat.diff_normal_b q (nth j data []) = true) ->
+  (forall j, j < n ->
+     let D := euclid ROps (map FR q) (map FR (nth j data [])) in
+     (((1 + u64) ^ (p + 3) - 1) * D < Rabs (D - FR eps))%R) ->
+  radius_query FOps data q eps = radius_query ROps (map (map FR) data) (map FR q) (FR eps) /\
+  predict_euclid FOps y c data q eps = predict_euclid ROps y c (map (map FR) data) (map FR q) (FR eps).
+Proof. exact predict_float_robust. Qed.
+
+(* fit followed by predict on a matrix of query rows (every query of length p, margins for the training
+   pairs and for every (query, training row) pair): the binary64 run returns the same labels, the same
+   num_classes and the same predicted labels as exact arithmetic *)
+Theorem C13_fit_predict_float_robust :
+  forall (data queries : list (list PrimFloat.float)) (eps : PrimFloat.float) (minpts p : nat),
+  let n := length data in
+  (forall i, i < n -> length (nth i data []) = p) ->
+  PrimFloat.is_finite eps = true ->
+  (forall i j, i < n -> j < n ->
+     PrimFloat.is_finite (euclid FOps (nth i data []) (nth j data [])) = true /\
+     C17.ProofsFloat.diff_normal_b (nth i data []) (nth j data []) = true) ->
+  (forall i j, i < n -> j < n ->
+     let D := euclid ROps (map FR (nth i data [])) (map FR (nth j data [])) in
+     (((1 + u64) ^ (p + 3) - 1) * D < Rabs (D - FR eps))%R) ->
+  (forall q, In q queries -> length q = p /\
+     forall j, j < n ->
+       PrimFloat.is_finite (euclid FOps q (nth j data [])) = true /\
+       C17.ProofsFloat.diff_normal_b q (nth j data []) = true /\
+       let D := euclid ROps (map FR q) (map FR (nth j data [])) in
+       (((1 + u64) ^ (p + 3) - 1) * D < Rabs (D - FR eps))%R) ->
+  fit_predict_euclid FOps data eps minpts queries =
+  fit_predict_euclid ROps (map (map FR) data) (FR eps) minpts (map (map FR) queries).
+Proof. exact fit_predict_float_robust. Qed.
+
+(* the hypotheses are satisfiable: seven 2-D points (0.1,0.2) (0.3,0.1) (0.2,0.4) (5.3,4.1) (5.1,4.4)
+   (5.5,3.9) (-3.7,6.9) (nearest binary64 numbers: every operation rounds), eps = 0.5, min_samples = 3;
+   two clusters, points 4 and 5 are border points (their distance 0.64 exceeds eps), point 6 is noise *)
+Example C13_fit_float_robust_instance :
+  let data := [[0x1.999999999999ap-4; 0x1.999999999999ap-3]; [0x1.3333333333333p-2; 0x1.999999999999ap-4];
+               [0x1.999999999999ap-3; 0x1.999999999999ap-2]; [0x1.5333333333333p+2; 0x1.0666666666666p+2];
+               [0x1.4666666666666p+2; 0x1.199999999999ap+2]; [0x1.6p+2; 0x1.f333333333333p+1];
+               [-0x1.d99999999999ap+1; 0x1.b99999999999ap+2]]%float in
+  let eps := 0x1p-1%float in
+  let n := length data in
+  (forall i, i < n -> length (nth i data []) = 2) /\
+  PrimFloat.is_finite eps = true /\
+  (forall i j, i < n -> j < n ->
+     PrimFloat.is_finite (euclid FOps (nth i data []) (nth j data [])) = true /\
+     C17.ProofsFloat.diff_normal_b (nth i data []) (nth j data []) = true) /\
+  (forall i j, i < n -> j < n ->
+     let D := euclid ROps (map FR (nth i data [])) (map FR (nth j data [])) in
+     (((1 + u64) ^ (2 + 3) - 1) * D < Rabs (D - FR eps))%R) /\
+  fit_euclid FOps data eps 3 = Some ([0; 0; 0; 1; 1; 1; -1]%Z, 2%Z) /\
+  fit_euclid ROps (map (map FR) data) (FR eps) 3 = Some ([0; 0; 0; 1; 1; 1; -1]%Z, 2%Z).
+Proof. exact ex_fit_robust. Qed.
+
+(* predict on the same data: query (5.2, 4.2), neighbours 3, 4, 5, label 1 *)
+Example C13_predict_float_robust_instance :
+  let data := [[0x1.999999999999ap-4; 0x1.999999999999ap-3]; [0x1.3333333333333p-2; 0x1.999999999999ap-4];
+               [0x1.999999999999ap-3; 0x1.999999999999ap-2]; [0x1.5333333333333p+2; 0x1.0666666666666p+2];
+               [0x1.4666666666666p+2; 0x1.199999999999ap+2]; [0x1.6p+2; 0x1.f333333333333p+1];
+               [-0x1.d99999999999ap+1; 0x1.b99999999999ap+2]]%float in
+  let eps := 0x1p-1%float in
+  let q := [0x1.4cccccccccccdp+2; 0x1.0cccccccccccdp+2]%float in
+  let y := [0; 0; 0; 1; 1; 1; -1]%Z in
+  let n := length data in
+  let p := length q in
+  PrimFloat.is_finite eps = true /\
+  (forall j, j < n -> length (nth j data []) = p /\
+     PrimFloat.is_finite (euclid FOps q (nth j data [])) = true /\
+     C17.ProofsFloat.diff_normal_b q (nth j data []) = true) /\
+  (forall j, j < n ->
+     let D := euclid ROps (map FR q) (map FR (nth j data [])) in
+     (((1 + u64) ^ (p + 3) - 1) * D < Rabs (D - FR eps))%R) /\
+  radius_query FOps data q eps = [3; 4; 5] /\
+  predict_euclid FOps y 2 data q eps = 1%Z /\
+  predict_euclid ROps y 2 (map (map FR) data) (map FR q) (FR eps) = 1%Z.
+Proof. exact ex_predict_robust. Qed.
+
+(* THE MARGIN IS NEEDED.  Points (0, 0) and (a, 1) with a = 2^26 + 1, eps = a, min_samples = 2: exactly
+   representable integers, every computed distance finite, no underflow.  The exact distance
+   sqrt(a^2 + 1) exceeds eps (by less than the rounding bound); the squared distance a^2 + 1 is computed
+   exactly, but its square root rounds to a = eps, so the binary64 test `d <= eps` succeeds: binary64
+   DBSCAN returns ONE CLUSTER {0, 1}, exact-arithmetic DBSCAN returns TWO NOISE POINTS *)
+Theorem C13_fit_float_margin_needed_refuted :
+  let data := [[0; 0]; [67108865; 1]]%float in
+  let eps := 67108865%float in
+  let n := length data in
+  let D := fun i j => euclid ROps (map FR (nth i data [])) (map FR (nth j data [])) in
+  (forall i, i < n -> length (nth i data []) = 2) /\
+  PrimFloat.is_finite eps = true /\
+  (forall i j, i < n -> j < n ->
+     PrimFloat.is_finite (euclid FOps (nth i data []) (nth j data [])) = true /\
+     C17.ProofsFloat.diff_normal_b (nth i data []) (nth j data []) = true) /\
+  D 0 1 = R_sqrt.sqrt (67108865 * 67108865 + 1)%R /\ FR eps = 67108865%R /\
+  (FR eps < D 0%nat 1%nat)%R /\
+  (Rabs (D 0%nat 1%nat - FR eps) < ((1 + u64) ^ (2 + 3) - 1) * D 0%nat 1%nat)%R /\
+  euclid FOps (nth 0 data []) (nth 1 data []) = eps /\
+  fit_euclid FOps data eps 2 = Some ([0; 0]%Z, 1%Z) /\
+  fit_euclid ROps (map (map FR) data) (FR eps) 2 = Some ([-1; -1]%Z, 0%Z).
+Proof. exact ex_margin_needed. Qed.
